@@ -6,13 +6,15 @@ from .series_props import specs_product, fold_canaries
 def check(tier, seed):
     d = Decision("C18", tier, seed)
     d.add_units(fold_canaries(run_units(specs_product(tier))))
+    d.add_lean(["PV.Bridge.sum_antidiagonal_eq_sum_box", "PV.Bridge.coeff_mul_box", "PV.Bridge.coeff_mul_blocks", "PV.Model.filtered"])
     d.assumptions += [
         "P-ONE (sentinel discipline, precondition): the `one` sentinel never meets another non-zero contribution in a sum "
         "(series.One supports no arithmetic by design); paths on which it would are excluded and counted in the evidence",
         "pairing precondition of hermitian=True: second[k,s,p] = Dagger(first[s,k,p]) on the orders paired; the literal wording "
         "'for a product that is Hermitian' is weaker and not sufficient (known finding F-H)",
-        "finite-sum lemma (fold of the per-iteration contributions = double sum over blocks and order splittings, incl. the "
-        "m <-> n-m involution under lexicographic order): Lean theorem when listed under lean_theorems, otherwise assumed",
+        "finite-sum lemma: the sum of the per-iteration contributions over the iteration set product(range(n_blocks), box 0 <= m <= n) is the coefficient of the "
+        "product in the ring of block matrices of multivariate power series (Lean: PV.Bridge.coeff_mul_blocks, sum_antidiagonal_eq_sum_box); the m <-> n-m involution "
+        "under lexicographic order used by the hermitian shortcut is covered by the per-iteration obligations (pairing) but its summation is not mechanised",
     ]
     d.not_decided += ["rounding of floating-point sums (A-FP)"]
     d.explanation = ("Per-iteration obligations of the real loop body of product_by_order (symbolic block indices, symbolic number of "
@@ -22,4 +24,4 @@ def check(tier, seed):
                            "literal clause of C18: hermitian=True 'for a product that is Hermitian' leaves values unchanged. The code needs the stronger "
                            "precondition second = adjoint(first) (under which the clause is proved); the weaker literal condition has a counterexample")
     d.run_battery("series_battery.py", ['product'], "shapes <= (2,3), <= 2 infinite dimensions, orders <= 3, fixed list of index entries, 4x4 two-block problems; see replay/series_battery.py")
-    return d.finish(level="proof", trusted_base=["contracts/series_product.py", "contracts/series_index.py"])
+    return d.finish(level="proof", trusted_base=["contracts/series_product.py", "contracts/series_index.py", "leanalg/lean/PV/CauchyBridge.lean", "leanalg/lean/PV/Model.lean"])
